@@ -393,6 +393,10 @@ impl Scope {
         let mut flags = BindingFlags::MUTABLE;
         flags.set(BindingFlags::LEX, !function_scope);
         flags.set(BindingFlags::ESCAPES, self.is_global());
+        #[cfg(boa_verif)]
+        if crate::verif::force_escape() {
+            flags.insert(BindingFlags::ESCAPES);
+        }
         bindings.push(Binding {
             name: name.clone(),
             index: binding_index,
@@ -417,6 +421,10 @@ impl Scope {
         let mut flags = BindingFlags::LEX;
         flags.set(BindingFlags::STRICT, strict);
         flags.set(BindingFlags::ESCAPES, self.is_global());
+        #[cfg(boa_verif)]
+        if crate::verif::force_escape() {
+            flags.insert(BindingFlags::ESCAPES);
+        }
         bindings.push(Binding {
             name,
             index: binding_index,
